@@ -105,8 +105,8 @@ func (ln *vfC05LiveNode) position(nc *vfNodeConn, f *vfFrame, q *vfRequest) stri
 		ln.conns[nc.ID] = st
 	}
 	c := "pool"
-	if nc.ID == 1 {
-		c = "ctl"
+	if nc.ID == 1 && ln.c.Cfg != "nocontrol" {
+		c = "ctl" // the session dials its control connection first
 	}
 	switch f.Op {
 	case vfOpOptions:
@@ -415,6 +415,25 @@ func vfC05RunLive(in *vfC05Input) (res vfC05Result) {
 		cfg.Authenticator = vfC05Chain{inner: pa}
 	case "keyspace":
 		cfg.Keyspace = "ks1"
+	case "noschema":
+		cfg.Events.DisableSchemaEvents = true
+	case "nostatus":
+		cfg.Events.DisableNodeStatusEvents = true
+	case "notopology":
+		cfg.Events.DisableTopologyEvents = true
+	case "noevents":
+		cfg.Events.DisableSchemaEvents, cfg.Events.DisableNodeStatusEvents, cfg.Events.DisableTopologyEvents = true, true, true
+	case "nolookup":
+		cfg.DisableInitialHostLookup = true
+	case "ignorepeer":
+		cfg.IgnorePeerAddr = true
+	case "nocontrol":
+		cfg.disableControlConn = true
+		cfg.DisableInitialHostLookup = true
+	case "snappy":
+		// negotiated through SUPPORTED / STARTUP; the node reads the driver's compressed requests
+		cfg.Compressor = SnappyCompressor{}
+		n.Decompress = func(name string, body []byte) ([]byte, error) { return SnappyCompressor{}.Decode(body) }
 	case "tokenaware":
 		// the policy asks Query.GetRoutingKey (-> Session.routingKeyInfo -> PREPARE) before the request is sent
 		cfg.PoolConfig.HostSelectionPolicy = TokenAwareHostPolicy(RoundRobinHostPolicy())
@@ -565,6 +584,9 @@ func vfC05RunLive(in *vfC05Input) (res vfC05Result) {
 		}},
 	}
 	for _, op := range ops {
+		if c.Cfg == "nocontrol" && strings.Contains(op.name, "routing-key") {
+			continue // needs Session.control (keyspace metadata); nil only in this unexported test mode
+		}
 		res.Obs = append(res.Obs, vfC05Guard(op.name, false, op.fn))
 	}
 	if strings.HasPrefix(c.Pos, "conc.") || (in.ID+int(vfSeed()))%8 == 0 {
